@@ -19,7 +19,7 @@ from .core import DomainError, HarnessError, SymBool, cur, have_ctx
 
 Number = Union[int, float, Fraction]
 
-CONFIG = {"exp_uf": None, "log_uf": None, "abstract_args": False}
+CONFIG = {"exp_uf": None, "log_uf": None, "abstract_args": False, "floor_range": None}
 
 
 def abstract_arg(term):
@@ -500,6 +500,14 @@ class SymReal:
         cc = self.concrete()
         if cc is not None:
             return SymReal.const(math.floor(cc))
+        if CONFIG["floor_range"] is not None:
+            # declared bound on the integer part: decide it by forking (no integer variables in later queries)
+            lo, hi = CONFIG["floor_range"]
+            for k in range(lo, hi + 1):
+                if bool((self >= k) & (self < k + 1)):
+                    return SymReal.const(k)
+            from .core import BoundExceeded
+            raise BoundExceeded(f"integer part outside the declared range [{lo},{hi}]")
         cache = c.notes.setdefault("_floor_cache", {})
         key = (self.n.get_id(), self.d.get_id())
         if key in cache:
